@@ -2368,16 +2368,27 @@ func main() {
 		fmt.Fprintln(os.Stderr, "usage: go2lean <repo> <lean dir> <config.json>")
 		os.Exit(2)
 	}
-	repo, leanDir := os.Args[1], os.Args[2]
-	raw, err := os.ReadFile(os.Args[3])
+	failed, err := run(os.Args[1], os.Args[2], os.Args[3])
 	if err != nil {
 		fmt.Fprintln(os.Stderr, "go2lean:", err)
 		os.Exit(2)
 	}
+	if len(failed) > 0 {
+		fmt.Println("go2lean: not translated: " + strings.Join(failed, "; "))
+		os.Exit(1)
+	}
+	fmt.Println("go2lean: ok")
+}
+
+// run translates every module of the configuration; failed lists the functions left out
+func run(repo, leanDir, cfgPath string) (failed []string, err error) {
+	raw, err := os.ReadFile(cfgPath)
+	if err != nil {
+		return nil, err
+	}
 	var cfg Config
 	if err := json.Unmarshal(raw, &cfg); err != nil {
-		fmt.Fprintln(os.Stderr, "go2lean: config:", err)
-		os.Exit(2)
+		return nil, fmt.Errorf("config: %v", err)
 	}
 	modPath := ""
 	if gm, err := os.ReadFile(filepath.Join(repo, "go.mod")); err == nil {
@@ -2387,7 +2398,6 @@ func main() {
 			}
 		}
 	}
-	var failed []string
 	for _, m := range cfg.Modules {
 		t := &translator{repo: repo, modPath: modPath, mod: m, pkgs: map[string]*pkgInfo{}, funcs: map[string]*fn{}, consts: map[string]string{}}
 		for _, fc := range m.Funcs {
@@ -2446,15 +2456,10 @@ func main() {
 		if string(old) != b.String() {
 			os.MkdirAll(filepath.Dir(out), 0755)
 			if err := os.WriteFile(out, []byte(b.String()), 0644); err != nil {
-				fmt.Fprintln(os.Stderr, "go2lean:", err)
-				os.Exit(2)
+				return failed, err
 			}
 		}
 	}
-	if len(failed) > 0 {
-		fmt.Println("go2lean: not translated: " + strings.Join(failed, "; "))
-		os.Exit(1)
-	}
-	fmt.Println("go2lean: ok")
+	return failed, nil
 }
 
